@@ -2,7 +2,7 @@ import HcipyVerif.Lemmas.ApertureMain
 import HcipyVerif.Lemmas.AperturePolygon
 import HcipyVerif.Lemmas.ApertureKeck
 import HcipyVerif.Lemmas.AperturePolar
-import HcipyVerif.Lemmas.AperturePolarFloat
+import HcipyVerif.Lemmas.AperturePolarInexact
 import HcipyVerif.Lemmas.ApertureStat
 
 /-!
@@ -368,6 +368,13 @@ theorem supersampled_min_max_binary {st : Stat} (hst : st = .min ∨ st = .max) 
   intro v hv
   obtain ⟨p, rfl⟩ := supersampledStat_minmax_val hst hw h v hv
   exact binary_val hb p
+
+/-- **min ≤ mean ≤ max at every pixel** — any aperture, any oversampling -/
+theorem supersampled_min_le_mean_le_max {s : Shape} (hw : WF s) {nx ny : Nat} {xs ys fmin fmean fmax : List Rat}
+    (hmin : supersampledStat .min s nx ny xs ys = .ok fmin) (hmean : supersampled s nx ny xs ys = .ok fmean)
+    (hmax : supersampledStat .max s nx ny xs ys = .ok fmax) (k : Nat) (hk : k < xs.length * ys.length) :
+    fmin.getD k 0 ≤ fmean.getD k 0 ∧ fmean.getD k 0 ≤ fmax.getD k 0 :=
+  supersampledStat_order hw hmin hmean hmax k hk
 
 /-- 'mean' is 'sum' divided by the number of dithered grids `ny·nx` -/
 theorem supersampled_sum_mean {s : Shape} {nx ny : Nat} {xs ys f : List Rat}
